@@ -1,6 +1,16 @@
 #!/usr/bin/env python3
 # Regenerates /verif/MANIFEST.json from tools/claims.json (one entry per claimed property).
 import json, subprocess
+import subprocess
+def hook_commits():
+    # every commit in /repo whose message starts with "verif" (guarded contract / harness files), oldest first
+    try:
+        log=subprocess.run(['git','-C','/repo','log','--format=%h %s'],capture_output=True,text=True).stdout.splitlines()
+        h=[l.split()[0] for l in log if l.split(' ',1)[1].startswith('verif')]
+        h.reverse()
+        return h or claims["hook_commits"]
+    except Exception:
+        return claims["hook_commits"]
 props=[json.loads(l) for l in open('/verif/properties.jsonl')]
 claims=json.load(open('/verif/tools/claims.json'))
 m={
@@ -8,7 +18,7 @@ m={
  "setup_cmd":"cd /verif/engine && GOFLAGS=-mod=mod GOPROXY=off GOSUMDB=off GOTOOLCHAIN=local go build -o ../bin/govc ./cmd/govc",
  "hooks":{"guard":"verif","enable":"go build -tags verif ./... (the guarded files are comment-only contract files zz_contracts_verif.go read by govc; they add no code)",
    "baseline_off_cmd":"cd /repo && GOFLAGS=-mod=mod GOPROXY=off GOSUMDB=off go test -vet=off -count=1 -timeout 25m ./...",
-   "source_commits":claims["hook_commits"],"add_only":True},
+   "source_commits":hook_commits(),"add_only":True},
  "engines":[{"name":"govc","path":"/verif/engine","serves_properties":sorted(claims["checks"].keys()),
    "kind_free_text":"contract-based deductive verifier for Go written for this task: go/ssa -> verification conditions (Burstall-Bornat heap, slices with aliasing, maps, loop invariants, callee contracts, inferred frames, monitor rule) -> SMT-LIB, discharged by z3 5.1.0 / z3 4.8.12 / cvc5 1.0"}],
  "checks":[],
